@@ -200,16 +200,23 @@ func ruleOwnFirst(c *Check, rule string) {
 }
 
 // staticCallers lists repository functions with a static call to name.
+// A caller that is a helper extracted after the rules were confirmed
+// (unknownHelper) stands for the functions that call it: its body is walked as
+// part of theirs.
 func staticCallers(p *Program, name string) []string {
 	set := map[string]bool{}
+	sites := map[string][]ssa.Instruction{}
 	for _, fn := range p.RepoFuncs() {
 		for _, b := range fn.Blocks {
 			for _, in := range b.Instrs {
 				if isCallTo(in, name) {
-					set[QualName(fn)] = true
+					sites[QualName(fn)] = append(sites[QualName(fn)], in)
 				}
 			}
 		}
+	}
+	for k := range attributeToOwners(p, sites) {
+		set[k] = true
 	}
 	var out []string
 	for k := range set {
